@@ -236,7 +236,19 @@ def free_policy(src):
     raise Broken("cannot classify how LifetimeGuard::drop frees the nursery: " + flat[:200])
 
 
-def lean(into, frm, regs, policy):
+def option_none_via_from(src):
+    """what `impl<T: Into<SteelVal>> From<Option<T>> for SteelVal` returns for `None`"""
+    b = find_block(src, r"impl<T:\s*Into<SteelVal>>\s+From<Option<T>>\s+for\s+SteelVal\s*\{", "From<Option<T>>")
+    if b is None:
+        raise Broken("impl From<Option<T>> for SteelVal not found in primitives.rs")
+    flat = re.sub(r"\s+", " ", b)
+    m = re.search(r"if let Some\((\w+)\) = val \{ \1\.into\(\) \} else \{ SteelVal::BoolV\((true|false)\) \}", flat)
+    if not m:
+        raise Broken("cannot classify the None arm of From<Option<T>>: " + flat[:200])
+    return m.group(2)
+
+
+def lean(into, frm, regs, policy, optnone):
     L = ["/- GENERATED by translate/c20_convs.py from crates/steel-core/src/primitives.rs and",
          "   steel_vm/register_fn.rs on every run of checks/c20.py.  Do not edit. -/",
          "import SteelVerif.C20.Model", "namespace SteelVerif.C20", "",
@@ -248,7 +260,9 @@ def lean(into, frm, regs, policy):
     L += ["  (%s, %d, [%s])," % ("true" if s else "false", a, ", ".join(map(str, ix))) for s, a, ix in regs]
     L[-1] = L[-1].rstrip(",")
     L += ["]", "", "/-- how `LifetimeGuard::drop` frees the nursery -/",
-          "def genFreePolicy : Policy := .%s" % policy, "", "end SteelVerif.C20", ""]
+          "def genFreePolicy : Policy := .%s" % policy, "",
+          "/-- what `impl From<Option<T>> for SteelVal` maps `None` to -/",
+          "def genOptionNoneViaFrom : Bool := %s" % optnone, "", "end SteelVerif.C20", ""]
     return "\n".join(L)
 
 
@@ -260,11 +274,12 @@ def main():
         reg = strip_comments(open(repo + "/crates/steel-core/src/steel_vm/register_fn.rs").read())
         into, frm = conv_tables(prim)
         regs = reg_tables(reg)
+        optnone = option_none_via_from(prim)
         policy = free_policy(strip_comments(open(repo + "/crates/steel-core/src/steel_vm/engine.rs").read()))
     except (Broken, OSError, ValueError) as e:
         print("c20_convs: %s" % e, file=sys.stderr)
         sys.exit(2)
-    text = lean(into, frm, regs, policy)
+    text = lean(into, frm, regs, policy, optnone)
     try:
         old = open(out).read()
     except OSError:
@@ -273,7 +288,7 @@ def main():
         with open(out, "w") as f:
             f.write(text)
     print(json.dumps({"into": into, "from": frm,
-                      "register_idx": [[s, a, ix] for s, a, ix in regs], "free_policy": policy,
+                      "register_idx": [[s, a, ix] for s, a, ix in regs], "free_policy": policy, "option_none_via_from": optnone,
                       "changed": old != text}))
 
 
